@@ -158,8 +158,20 @@ def layout_isa(draw, address_sizes=(8, 12, 16, 16, 16, 24, 32), zones=False, red
                        'offset': {'size': 8, 'byte_align': True}},
             'imm': {'type': 'numeric', 'bytecode': {'value': 3, 'size': 2}, 'argument': {'size': 16, 'byte_align': True}},
         }},
+        'idx': {'operand_values': {
+            'hl_idx': {'type': 'indexed_register', 'register': 'hl', 'bytecode': {'value': 1, 'size': 2},
+                       'index_operands': {
+                           'ia': {'type': 'register', 'register': 'a', 'bytecode': {'value': 0, 'size': 2}},
+                           'ix': {'type': 'register', 'register': 'x', 'bytecode': {'value': 1, 'size': 2}}}},
+            'ind_idx': {'type': 'indirect_indexed_register', 'register': 'hl', 'bytecode': {'value': 2, 'size': 2},
+                        'index_operands': {
+                            'ia': {'type': 'register', 'register': 'a', 'bytecode': {'value': 2, 'size': 2}},
+                            'ix': {'type': 'register', 'register': 'x', 'bytecode': {'value': 3, 'size': 2}}}},
+        }},
     }
     cfg['instructions'] = {
+        'ldx': {'bytecode': {'value': draw(st.integers(0, 15)), 'size': 4},
+                'operands': {'count': 1, 'operand_sets': {'list': ['idx']}}},
         'nop': {'bytecode': {'value': draw(st.integers(0, (1 << oc) - 1)), 'size': oc}},
         'ldi': {'bytecode': {'value': draw(st.integers(0, (1 << oc) - 1)), 'size': oc},
                 'operands': {'count': 1, 'operand_sets': {'list': ['imm8']}}},
@@ -286,7 +298,10 @@ class Builder:
     # -- item makers -------------------------------------------------------------------------------
     def instr(self, refs=True):
         d = self.draw
-        kind = d(st.sampled_from(['nop', 'ldi', 'w12', 'jmp', 'jmp', 'mov', 'mov']))
+        kind = d(st.sampled_from(['nop', 'ldi', 'w12', 'jmp', 'jmp', 'mov', 'mov', 'ldx']))
+        if kind == 'ldx':
+            return {'t': 'instr', 'mn': 'ldx', 'ops': [{'k': d(st.sampled_from(['idxreg', 'indidx'])), 'r': 'hl', 'deco': None,
+                                                       'idx': {'k': 'reg', 'r': d(st.sampled_from(['a', 'x'])), 'deco': None}}]}
         if kind == 'nop':
             return {'t': 'instr', 'mn': 'nop', 'ops': []}
         if kind == 'ldi':
@@ -337,7 +352,7 @@ class Builder:
         return {'t': 'data', 'd': w, 'vals': vals}
 
 
-def general_program(draw, cfg, max_steps=30, extra=()):
+def general_program(draw, cfg, max_steps=30, extra=(), disable=()):
     """A random program over a layout_isa() configuration -> (Builder, feature set)."""
     b = Builder(draw, cfg)
     d = draw
@@ -355,6 +370,8 @@ def general_program(draw, cfg, max_steps=30, extra=()):
         choice = d(st.sampled_from(['label', 'label', 'instr', 'instr', 'instr', 'probe', 'probe', 'fill', 'zerountil',
                                     'org', 'align', 'memzone', 'orgzone', 'mute', 'excluded', 'const', 'local', 'flabel']
                                    + list(extra)))
+        if choice in disable:
+            continue
         if choice == 'createzone':
             free = [z for z in isagen.ZONES + ['ZX', 'ZY'] if z not in b.lay.zones]
             g = b.lay.zones['GLOBAL']
@@ -486,6 +503,12 @@ def general_program(draw, cfg, max_steps=30, extra=()):
             feats.add('muted')
         elif choice == 'excluded':
             b.add({'t': 'if', 'lhs': ['num', 0, 'dec']})
+            if d(st.booleans()):
+                if zones and d(st.booleans()):
+                    b.add({'t': 'memzone', 'zone': d(st.sampled_from(zones))})
+                else:
+                    b.add({'t': 'org', 'e': b.lit(d(st.integers(b.lo, b.hi)))})
+                feats.add('zone-directive-in-excluded-block')
             b.add({'t': 'label', 'name': 'ghost'})
             b.add({'t': 'instr', 'mn': 'nop', 'ops': []})
             if b.defined:
